@@ -12,7 +12,7 @@ def c_eval(expr, env):
         if t[0].isdigit():
             return str(int(t, 8)) if len(t) > 1 and t[0] == "0" else t
         return "(%d)" % env[t]
-    return int(eval(re.sub(r'[A-Za-z_]\w*|\d+', lit, expr), {"__builtins__": {}}, {}))
+    return int(eval(re.sub(r'[A-Za-z_]\w*|\d+', lit, expr).replace("/", "//"), {"__builtins__": {}}, {}))
 
 
 def f_eval(expr, env):
@@ -24,16 +24,20 @@ def f_eval(expr, env):
         return "(%d)" % env[t.lower()]
     if re.search(r'[-+*/]\s*[-+]', expr):
         raise ValueError("two consecutive operators are not Fortran: %r" % expr)
-    return int(eval(re.sub(r'[A-Za-z_]\w*|\d+', lit, expr), {"__builtins__": {}}, {}))
+    return int(eval(re.sub(r'[A-Za-z_]\w*|\d+', lit, expr).replace("/", "//"), {"__builtins__": {}}, {}))
 
 
 def check(inp):
     from shroud import ast, typemap
     members = inp["members"]          # list of (name, expr or None)
-    decl = "enum Color { %s }" % ", ".join(n if e is None else "%s = %s" % (n, e) for n, e in members)
+    kw = "enum class" if inp.get("scoped") else "enum"
+    decl = "%s Color { %s }" % (kw, ", ".join(n if e is None else "%s = %s" % (n, e) for n, e in members))
     typemap.initialize()
     lib = ast.LibraryNode()
     try:
+        if inp.get("outer"):
+            # an earlier unscoped enum in the same scope that shares enumerator names: they must not leak in
+            lib.add_enum("enum Outer { %s }" % ", ".join("%s = %d" % (n, 100 + i) for i, (n, e) in enumerate(members)))
         node = lib.add_enum(decl)
     except RuntimeError:
         return None
@@ -73,7 +77,8 @@ def check(inp):
     return None
 
 
-EXPRS = [None, "1", "010", "-2", "A + 1", "A+B", "(1+2)*3", "2*A", "1 - -1", "0", "007", "A - 1", "10"]
+EXPRS = [None, "1", "010", "-2", "A + 1", "A+B", "(1+2)*3", "2*A", "1 - -1", "0", "007", "A - 1", "10", "64/(4*2)", "3*(64/5)",
+         "B*2"]
 
 
 def candidates(seed, around=None):
@@ -90,6 +95,8 @@ def candidates(seed, around=None):
                 ms.append([names[i], e])
             if ok:
                 yield {"members": ms}
+                if n == 2:
+                    yield {"members": ms, "scoped": True, "outer": True}
     rnd = random.Random(seed)
     while True:
         k = rnd.randint(1, 4)
